@@ -855,7 +855,16 @@ int engine_c17a(const std::string &mode, const std::string &outdir, const std::s
         for (size_t k = part; k < (1u << 20); k += nparts) for (size_t m = 1; m <= 64; m++) c17_eval(k, m, st);
         static const size_t MS[] = {1, 2, 3, 7, 64, 1000, 4096, 65537, 16777216, 16777217, 16777219};
         for (size_t k = (1u << 20) + part; k <= (1u << 25); k += nparts) for (size_t m : MS) c17_eval(k, m, st);
-        snprintf(sample, sizeof sample, "exhaustive k in [0,2^20) x m in 1..64, k in [2^20,2^25] x 11 sizes (partition %u/%u)", part, nparts);
+        // every key below 2^31 (thorough: 2^33) against the table sizes for which ANY fraction rounding up to 1.0 shows: m = 1
+        // (result must be 0) and m = 2^24 (largest size that is its own float and whose product still has integer resolution)
+        uint64_t kmax = (mode == "small") ? ((uint64_t)1 << 31) : 0;
+        for (uint64_t k = (1u << 25) + 1 + part; k < kmax; k += nparts) {
+            size_t r = cstl_hash_mul((size_t)k, 1);
+            if (r >= 1) { g_cur_op = "cstl_hash_mul"; verif_fail("C17.mul.range", "cstl_hash_mul(%llu, 1) = %zu is not below the table size", (unsigned long long)k, r); }
+            st.evals++;
+        }
+        for (uint64_t k = (1u << 25) + 1 + part; k < ((uint64_t)1 << 29); k += nparts) c17_eval((size_t)k, 16777216, st);
+        snprintf(sample, sizeof sample, "exhaustive k in [0,2^20) x m in 1..64, k in [2^20,2^25] x 11 sizes, k < 2^31 x m=1, k < 2^29 x m=2^24 (partition %u/%u)", part, nparts);
     } else if (mode == "grid" || mode == "gridq") {
         // every float value the scale factor (float)m can take, with the smallest m that rounds to it, against the
         // keys with the largest fractional parts and boundary keys. gridq: every 61st value + all values near binade ends
